@@ -33,6 +33,8 @@ type Engine struct {
 	sccOf    map[*ssa.Function]int
 	heapInd  map[*ssa.Function]int
 	tableFacts map[string][]string // global key -> verified table facts (SMT templates with %s for the global term)
+	refs     map[*ssa.Function][]string
+	writers  map[string]bool
 }
 
 var loadPatterns = []string{"./pkg/error", "./pkg/runtime", "./pkg/value", "./pkg/syntax", "./pkg/syntax/zh", "./pkg/io", "./pkg/exec", "./pkg/common", "./stdlib/json", "./stdlib/file"}
@@ -458,4 +460,213 @@ func (eng *Engine) findGlobalInit(g *ssa.Global) (ast.Expr, *packages.Package) {
 		}
 	}
 	return nil, nil
+}
+
+// ---- refinement: functions used as values of a named func type, and methods implementing an interface ----
+
+func (eng *Engine) computeRefinements() {
+	if eng.refs != nil {
+		return
+	}
+	eng.refs = map[*ssa.Function][]string{}
+	add := func(f *ssa.Function, key string) {
+		for _, k := range eng.refs[f] {
+			if k == key {
+				return
+			}
+		}
+		eng.refs[f] = append(eng.refs[f], key)
+	}
+	for f := range ssautil.AllFunctions(eng.prog) {
+		for _, b := range f.Blocks {
+			for _, ins := range b.Instrs {
+				ct, ok := ins.(*ssa.ChangeType)
+				if !ok {
+					continue
+				}
+				var g *ssa.Function
+				switch x := ct.X.(type) {
+				case *ssa.Function:
+					g = x
+				case *ssa.MakeClosure:
+					g = x.Fn.(*ssa.Function)
+				}
+				if g == nil {
+					continue
+				}
+				if n, ok := ct.Type().(*types.Named); ok {
+					key := "functype:" + n.Obj().Pkg().Name() + "." + n.Obj().Name()
+					if _, has := eng.specs.Contracts[key]; has {
+						add(g, key)
+					}
+				}
+			}
+		}
+	}
+	// interface contracts
+	for key, con := range eng.specs.Contracts {
+		if con.Kind != "iface" {
+			continue
+		}
+		// key = iface:pkg.I.m
+		rest := strings.TrimPrefix(key, "iface:")
+		i := strings.LastIndex(rest, ".")
+		if i < 0 {
+			continue
+		}
+		iname, mname := rest[:i], rest[i+1:]
+		j := strings.Index(iname, ".")
+		if j < 0 {
+			continue
+		}
+		ip := eng.pkgByName(iname[:j])
+		if ip == nil {
+			continue
+		}
+		obj := ip.Scope().Lookup(iname[j+1:])
+		if obj == nil {
+			continue
+		}
+		it, ok := obj.Type().Underlying().(*types.Interface)
+		if !ok {
+			continue
+		}
+		for _, sp := range eng.prog.AllPackages() {
+			if !strings.HasPrefix(sp.Pkg.Path(), "github.com/DemoHn/Zn") {
+				continue
+			}
+			for _, m := range sp.Members {
+				t, ok := m.(*ssa.Type)
+				if !ok {
+					continue
+				}
+				if n, ok := t.Type().(*types.Named); ok && n.TypeParams().Len() > 0 {
+					continue
+				}
+				for _, ty := range []types.Type{t.Type(), types.NewPointer(t.Type())} {
+					if _, isI := ty.Underlying().(*types.Interface); isI {
+						continue
+					}
+					if !types.Implements(ty, it) {
+						continue
+					}
+					sel := eng.prog.MethodSets.MethodSet(ty).Lookup(ip, mname)
+					if sel == nil {
+						sel = eng.prog.MethodSets.MethodSet(ty).Lookup(nil, mname)
+					}
+					if sel == nil {
+						continue
+					}
+					mf := eng.prog.MethodValue(sel)
+					if mf != nil && mf.Synthetic == "" {
+						add(mf, key)
+					}
+				}
+			}
+		}
+	}
+}
+
+func (eng *Engine) refinementsOf(f *ssa.Function) []string {
+	eng.computeRefinements()
+	ks := append([]string(nil), eng.refs[f]...)
+	sort.Strings(ks)
+	return ks
+}
+
+// buildAll returns the VCs of a function: against its own contract (or none: safety only) and against every
+// functype / interface contract it must refine.
+func (eng *Engine) buildAll(f *ssa.Function) []*FnVC {
+	out := []*FnVC{eng.buildVC(f)}
+	for _, k := range eng.refinementsOf(f) {
+		short := k[strings.LastIndex(k, ":")+1:]
+		con := *eng.specs.Contracts[k]
+		if own := eng.specs.Contracts[fnKey(f)]; own != nil {
+			// loop invariants are hints about the body, whichever contract it is checked against
+			con.Invs, con.Decr = own.Invs, own.Decr
+		}
+		out = append(out, eng.buildVCWith(f, &con, fnKey(f)+"~as~"+short))
+	}
+	return out
+}
+
+// functypeBySig: functype contracts declared for an alias (type F = func(...)) are found by signature identity.
+func (eng *Engine) functypeBySig(t types.Type) *Contract {
+	sig, ok := t.Underlying().(*types.Signature)
+	if !ok {
+		return nil
+	}
+	for key, con := range eng.specs.Contracts {
+		if con.Kind != "functype" {
+			continue
+		}
+		name := strings.TrimPrefix(key, "functype:")
+		i := strings.Index(name, ".")
+		if i < 0 {
+			continue
+		}
+		p := eng.pkgByName(name[:i])
+		if p == nil {
+			continue
+		}
+		o := p.Scope().Lookup(name[i+1:])
+		if o == nil {
+			continue
+		}
+		if s2, ok := o.Type().Underlying().(*types.Signature); ok && types.Identical(sig, s2) {
+			return con
+		}
+	}
+	return nil
+}
+
+// writesFieldsOf: fn stores to a field of struct type n, or updates/deletes in a map loaded from one of its fields.
+func (eng *Engine) writesFieldsOf(fn *ssa.Function, n *types.Named) bool {
+	key := fnKey(fn) + "|" + n.Obj().Name()
+	if eng.writers == nil {
+		eng.writers = map[string]bool{}
+	}
+	if v, ok := eng.writers[key]; ok {
+		return v
+	}
+	isT := func(t types.Type) bool {
+		if p, ok := t.Underlying().(*types.Pointer); ok {
+			if nn, ok := p.Elem().(*types.Named); ok {
+				return nn.Obj() == n.Obj()
+			}
+		}
+		return false
+	}
+	fromField := func(v ssa.Value) bool {
+		if u, ok := v.(*ssa.UnOp); ok && u.Op == token.MUL {
+			if fa, ok := u.X.(*ssa.FieldAddr); ok && isT(fa.X.Type()) {
+				return true
+			}
+		}
+		return false
+	}
+	res := false
+	for _, b := range fn.Blocks {
+		for _, ins := range b.Instrs {
+			switch x := ins.(type) {
+			case *ssa.Store:
+				if fa, ok := x.Addr.(*ssa.FieldAddr); ok && isT(fa.X.Type()) {
+					res = true
+				}
+				if ia, ok := x.Addr.(*ssa.IndexAddr); ok && fromField(ia.X) {
+					res = true
+				}
+			case *ssa.MapUpdate:
+				if fromField(x.Map) {
+					res = true
+				}
+			case *ssa.Call:
+				if bi, ok := x.Call.Value.(*ssa.Builtin); ok && bi.Name() == "delete" && fromField(x.Call.Args[0]) {
+					res = true
+				}
+			}
+		}
+	}
+	eng.writers[key] = res
+	return res
 }
